@@ -191,8 +191,22 @@ func RunLong(w *World, o LongOpts) error {
 				d.proposeOn(n, &ot, "racer's overdrawing tentative tip")
 			}
 			if o.Interrupt && k == 0 && n.Idx == 0 {
-				if w.TruncateInterrupted(n, d, 1+w.R.Intn(40)) {
+				// the walk starts from whichever tip the map iteration yields; from a short side tip nothing happens:
+				// repeat until an attempt really was interrupted, and afterwards until an attempt from the main tip ran
+				fired := false
+				for a := 0; a < 12 && !fired; a++ {
+					fired = w.TruncateInterrupted(n, d, 1+w.R.Intn(40))
+				}
+				if fired {
 					d.grow(20+w.R.Intn(40), 0)
+					for a := 0; a < 10; a++ {
+						before := len(n.Prev.Stored)
+						w.LastTruncateErr = nil
+						w.TruncateChecked(n, d, false)
+						if w.LastTruncateErr != nil || len(n.Prev.Stored) > before {
+							break
+						}
+					}
 				}
 			}
 			w.TruncateChecked(n, d, o.Race && n.Idx == 0)
@@ -308,6 +322,7 @@ func (w *World) TruncateChecked(n *Node, d *Driver, race bool) {
 	}
 	close(raceStart)
 	err := n.Book.VerifTruncate(w.Ctx)
+	w.LastTruncateErr = err
 	wg.Wait()
 	w.TruncatedOnce = true
 	for i := range racedVs {
